@@ -20,6 +20,7 @@ import (
 	"net"
 	"os"
 	"path/filepath"
+	"strings"
 
 	"github.com/magisterquis/curlrevshell/lib/sstls"
 	"github.com/magisterquis/curlrevshell/verifx/ev"
@@ -207,4 +208,114 @@ func c08ServerSeam(r *ev.Result, base string, good []byte, goodPin string) {
 	r.Add(n)
 	r.AddDistinct(n)
 	r.Set("server_level_damaged_caches", n)
+}
+
+// c08WriteErrors: the cache cannot be written (the write fails after k bytes,
+// "no space left on device"): whatever the run does about it, a later start
+// on the same path must not silently present another key than a start that
+// was reported as successful.
+func c08WriteErrors(r *ev.Result, base string, log0 []vos.Op) {
+	wi, n := -1, 0
+	for i, op := range log0 {
+		if "WriteFile" == op.Kind {
+			wi, n = i, op.N
+		}
+	}
+	if wi < 0 {
+		r.Set("write_error_cases", "the write path has no WriteFile call any more: not applicable as built")
+		return
+	}
+	cases := 0
+	for _, k := range []int{0, 1, n / 3, n / 2, n - 1} {
+		dir := filepath.Join(base, fmt.Sprintf("werr-%d", k))
+		cache := filepath.Join(dir, "sub", "cert.txtar")
+		v := func(sig, what string) {
+			r.Violate(ev.Violation{Signature: "write-error/" + sig, Kind: "c08werr", Replay: map[string]int{"write_fails_after_bytes": k, "of": n},
+				What: fmt.Sprintf("the write of a new cache file fails after %d of %d bytes (no space left on device): %s", k, n, what)})
+		}
+		cert1, err1, _ := c08Get(cache, &vos.CrashPlan{AtOp: wi, Bytes: k, Err: true}, nil)
+		pins := []string{}
+		if nil == err1 {
+			p, herr := c08Serve(cert1)
+			if nil != herr {
+				v("unusable-key", "the start was reported as successful, its certificate cannot complete a handshake: "+herr.Error())
+			}
+			pins = append(pins, p)
+		}
+		for k2 := 0; k2 < 2; k2++ {
+			cert, err, _ := c08Get(cache, nil, nil)
+			if nil != err {
+				continue
+			}
+			p, _ := c08Serve(cert)
+			pins = append(pins, p)
+		}
+		for _, p := range pins[min(1, len(pins)):] {
+			if p != pins[0] {
+				v("identity-changed", fmt.Sprintf("successive starts on that cache path that were all reported as successful present different keys: %q (first start succeeded: %v)", pins, nil == err1))
+				break
+			}
+		}
+		os.RemoveAll(dir)
+		cases++
+	}
+	r.Add(cases)
+	r.AddDistinct(cases)
+	r.Set("write_error_cases", cases)
+}
+
+// c08PathShapes: cache paths whose lexically cleaned form names another place
+// than the one the kernel resolves (a ".." after a symbolic link), relative
+// paths, doubled separators: three starts present one key, and the file is
+// where the path as given leads.
+func c08PathShapes(r *ev.Result, base string) {
+	root := filepath.Join(base, "shapes")
+	os.MkdirAll(filepath.Join(root, "real", "deep"), 0o700)
+	os.Symlink(filepath.Join("real", "deep"), filepath.Join(root, "link"))
+	/* Both places a "shared" directory could be meant to be exist already
+	(creating missing directories for such a path is another matter: the
+	program does that lexically and then fails to open the file, loudly). */
+	os.MkdirAll(filepath.Join(root, "real", "shared"), 0o700)
+	os.MkdirAll(filepath.Join(root, "shared"), 0o700)
+	shapes := map[string]string{
+		"dotdot-after-symlink": root + "/link/../shared/cert.txtar", /* kernel: real/shared; lexically: shapes/shared */
+		"doubled-separators":   root + "//dd///cert.txtar",
+		"dot-segments":         root + "/./ds/./cert.txtar",
+		"trailing-dotdot":      root + "/td/x/../cert.txtar",
+	}
+	n := 0
+	for name, cache := range shapes {
+		v := func(sig, what string) {
+			r.Violate(ev.Violation{Signature: "path-shape/" + sig + "/" + name, Kind: "c08path", Replay: map[string]string{"cache_path_shape": name},
+				What: fmt.Sprintf("cache path %q: %s", strings.TrimPrefix(cache, base), what)})
+		}
+		if "trailing-dotdot" == name {
+			os.MkdirAll(filepath.Join(root, "td", "x"), 0o700)
+		}
+		var pins []string
+		for k := 0; k < 3; k++ {
+			cert, err, _ := c08Get(cache, nil, nil)
+			if nil != err {
+				v("start-failed", fmt.Sprintf("start %d: %v", k+1, err))
+				break
+			}
+			p, _ := c08Serve(cert)
+			pins = append(pins, p)
+			if _, serr := os.Stat(cache); nil != serr {
+				v("file-elsewhere", fmt.Sprintf("after start %d there is no cache file at the path as given (%v)", k+1, serr))
+				break
+			}
+		}
+		for _, p := range pins {
+			if p != pins[0] {
+				v("identity-changed", fmt.Sprintf("three starts present %q", pins))
+				break
+			}
+		}
+		n++
+	}
+	os.RemoveAll(root)
+	r.Add(n)
+	r.AddDistinct(n)
+	r.Set("cache_path_shapes", n)
 }
